@@ -247,6 +247,21 @@ def make_exec(server, clock, oidc):
                 req["prompt"] = "consent"
             return self._authz(req, user, cref)
 
+        def op_authz_wire(self, user, cref, scope, tag):
+            """the request as it arrives over HTTP: a url-encoded string (parse_request then goes through
+            Message.from_urlencoded); optionally one parameter also in a language-tagged form name#tag"""
+            import urllib.parse
+            cid, _ = self.client(cref)
+            self.nonce += 1
+            req = [("client_id", cid), ("redirect_uri", self.redirect(cid)), ("response_type", "code"), ("scope", " ".join(scope)),
+                   ("state", "st%d" % self.nonce), ("nonce", "nonce-%d" % self.nonce)]
+            if "offline_access" in scope:
+                req.append(("prompt", "consent"))
+            if tag:
+                base = tag.split("#")[0]
+                req.append((tag, dict(req).get(base, "x")))
+            return self._authz(urllib.parse.urlencode(req), user, cref)
+
         def op_authz_bad(self, kind):
             req = {"client_id": "client_1", "redirect_uri": self.redirect("client_1"), "response_type": "code",
                    "scope": "openid", "state": "s", "nonce": "n"}
@@ -335,8 +350,11 @@ def next_op(rng, P, oidc):
             return ("authz_res", rng.choice(USERS), c, rng.choice(SCOPES), rng.choice([["client_1"], ["client_2", "client_3"], [c], ["https://rs.example.org"]]))
         rt = "code" if (rng.random() < 0.75 or not oidc) else rng.choice(["code id_token", "id_token token", "code token", "id_token"])
         return ("authz", rng.choice(USERS), c, rng.choice(SCOPES), rt)
-    if r < 0.24:
+    if r < 0.23:
         return ("authz_bad", rng.randint(0, 3))
+    if r < 0.27:
+        return ("authz_wire", rng.choice(USERS), rng.choice(clients), rng.choice(SCOPES),
+                rng.choice([None, "response_type#en", "scope#fr", "state#x-1", "nonce#de", "claims_locales#en", "ui_locales#sv-SE"]))
     if r < 0.42:
         ref = pick("code")
         c = owner(ref)
